@@ -5,6 +5,8 @@ pub mod pretty;
 
 mod config;
 mod utils;
+#[cfg(typstyle_verif)]
+pub mod verif_hooks;
 
 pub use attr::AttrStore;
 pub use config::Config;
@@ -53,17 +55,27 @@ impl Typstyle {
         source: &Source,
         inspector: impl FnOnce(&ArenaDoc<'_>),
     ) -> Result<String, Error> {
+        #[cfg(typstyle_verif)]
+        verif_hooks::point(verif_hooks::Point::FormatEnter);
         let root = source.root();
         if root.erroneous() {
             return Err(Error::SyntaxError);
         }
         let attr_store = AttrStore::new(root);
+        #[cfg(typstyle_verif)]
+        verif_hooks::point(verif_hooks::Point::Attributed);
         let printer = PrettyPrinter::new(self.config.clone(), attr_store);
         let markup = root.cast().unwrap();
         let doc = printer.convert_markup(Default::default(), markup);
+        #[cfg(typstyle_verif)]
+        verif_hooks::point(verif_hooks::Point::Converted);
         inspector(&doc);
         let result = doc.pretty(self.config.max_width).to_string();
+        #[cfg(typstyle_verif)]
+        verif_hooks::point(verif_hooks::Point::Rendered);
         let result = utils::strip_trailing_whitespace(&result);
+        #[cfg(typstyle_verif)]
+        verif_hooks::point(verif_hooks::Point::FormatExit);
         Ok(result)
     }
 }
